@@ -127,6 +127,8 @@ func (s *Rtmp2MpegtsRemuxer) FeedRtmpMessage(msg base.RtmpMsg) {
 }
 
 func (s *Rtmp2MpegtsRemuxer) Dispose() {
+	// 输入流结束时，如果探测队列还没有吐出数据（比如只有音频的短流），先将队列中的数据吐出来，否则这些数据就丢了
+	s.filter.Flush()
 	s.FlushAudio()
 }
 
